@@ -39,22 +39,38 @@ def check_molekel_centers(ctx, rid):
     iocls = prog.cls("iodata.iodata.IOData")
     licls = prog.cls("iodata.utils.LineIterator")
     # the writer fragment: the loop over the shells that writes the separator, with the assignments it depends on
-    loop = None
-    for st in do.body:
-        if isinstance(st, ast.For) and any(isinstance(x, ast.Constant) and isinstance(x.value, str) and x.value.strip() == "$$" for x in ast.walk(st)):
-            loop = st
+    # (in dump_one itself or in a helper of the same module)
+    loop = owner = None
+    for g in [do] + [h for h in prog.callees_closure([do]) if h.module is do.module and h is not do]:
+        for st in g.body:
+            if isinstance(st, ast.For) and any(isinstance(x, ast.Constant) and isinstance(x.value, str) and x.value.strip() == "$$" for x in ast.walk(st)):
+                loop, owner = st, g
     if loop is None:
-        raise AnalysisError("molekel.dump_one: the $BASIS loop (writes `$$`) was not found")
-    k = do.body.index(loop)
+        raise AnalysisError("molekel writer: the $BASIS loop (writes `$$`) was not found in dump_one or its helpers")
+    body_ = owner.body
+    k = body_.index(loop)
     used = {x.id for x in ast.walk(loop) if isinstance(x, ast.Name)}
     pre = []
     j = k - 1
-    while j >= 0 and isinstance(do.body[j], (ast.Assign, ast.Expr)):
-        st = do.body[j]
+    while j >= 0 and isinstance(body_[j], (ast.Assign, ast.Expr)):
+        st = body_[j]
         if isinstance(st, ast.Assign) and all(isinstance(t, ast.Name) and t.id in used for t in st.targets):
             pre.insert(0, st)
         j -= 1
-    fparam, dparam = do.posparams[0], do.posparams[1]
+    # what the loop iterates over: `<data>.obasis.shells` or `<obasis>.shells`
+    it_ = loop.iter
+    if not (isinstance(it_, ast.Attribute) and it_.attr == "shells"):
+        raise AnalysisError("molekel writer: the $BASIS loop does not iterate over `.shells`")
+    if isinstance(it_.value, ast.Name):
+        bind = ("basis", it_.value.id)
+    elif isinstance(it_.value, ast.Attribute) and it_.value.attr == "obasis" and isinstance(it_.value.value, ast.Name):
+        bind = ("data", it_.value.value.id)
+    else:
+        raise AnalysisError("molekel writer: cannot tell which object the $BASIS loop takes the shells from")
+    fparam = next((x.func.value.id for x in ast.walk(loop) if isinstance(x, ast.Call) and isinstance(x.func, ast.Attribute) and x.func.attr == "write" and isinstance(x.func.value, ast.Name)), None)
+    if fparam is None:
+        raise AnalysisError("molekel writer: the $BASIS loop does not write to a file parameter")
+    do_loop_owner = owner
     bad = None
     for label, centers in CASES.items():
         shells = []
@@ -62,12 +78,13 @@ def check_molekel_centers(ctx, rid):
             l = n_ % 3
             nprim = 1 + n_ % 2
             shells.append(Rec(shell_cls, icenter=ic, angmoms=np.array([l]), kinds=["c" if l < 2 else "p"], exponents=np.array([1.5 + n_ + p_ for p_ in range(nprim)]), coeffs=np.array([[0.5 + 0.25 * p_] for p_ in range(nprim)])))
-        data = Rec(iocls, obasis=Rec(basis_cls, shells=shells, conventions={}, primitive_normalization="L2"), mo=None)
+        basis = Rec(basis_cls, shells=shells, conventions={}, primitive_normalization="L2")
+        data = Rec(iocls, obasis=basis, mo=None)
         sink = TextSink()
         ev = AccessorEval(prog, iocls, limit=4000)
         ev.module = do.module
         try:
-            ev._block([*pre, loop], {fparam: sink, dparam: data})
+            ev._block([*pre, loop], {fparam: sink, bind[1]: (basis if bind[0] == "basis" else data)})
             lines = [ln + "\n" for ln in sink.text.split("\n") if ln != ""] + ["$END\n"]
             lit = Rec(licls, filename="FILE", fh=iter(lines), lineno=0, stack=[])
             ev2 = AccessorEval(prog, licls, limit=4000)
@@ -83,9 +100,9 @@ def check_molekel_centers(ctx, rid):
             bad = f"{label}: shells written for centres {[w[0] for w in want]} are read back on centres {[g[0] for g in got]}" + ("" if [g[1:] for g in got] == [w[1:] for w in want] else f" (shell types / primitive counts {[g[1:] for g in got]} instead of {[w[1:] for w in want]})")
             break
     if bad:
-        ctx.violate(rid, f"Molekel $BASIS block, {bad}: the number of `$$` lines before a shell is what the reader takes as its atom", do, loop, construct=f"molekel $$ separators: {bad}"[:180])
+        ctx.violate(rid, f"Molekel $BASIS block, {bad}: the number of `$$` lines before a shell is what the reader takes as its atom", do_loop_owner, loop, construct=f"molekel $$ separators: {bad}"[:180])
     else:
-        ctx.ok(rid, f"Molekel $BASIS block: on {len(CASES)} abstract bases (incl. atoms without functions) the reader finds every shell on the atom it was written for", f"{do.module.relpath}:{loop.lineno}")
+        ctx.ok(rid, f"Molekel $BASIS block: on {len(CASES)} abstract bases (incl. atoms without functions) the reader finds every shell on the atom it was written for", f"{do_loop_owner.module.relpath}:{loop.lineno}")
 
 
 def check_wfx_spin_labels(ctx, rid):
@@ -100,25 +117,30 @@ def check_wfx_spin_labels(ctx, rid):
     def has_label(node):
         return any(isinstance(x, ast.Constant) and isinstance(x.value, str) and x.value.strip() in ("Alpha", "Beta", "Alpha and Beta") for x in ast.walk(node))
 
-    wfrag = None
-    for st in do.body:
-        if isinstance(st, (ast.If, ast.Assign)) and has_label(st):
-            wfrag = st
+    wfrag = wowner = None
+    for g in [do] + [h for h in prog.callees_closure([do]) if h.module is do.module and h is not do]:
+        for st in g.body:
+            if isinstance(st, (ast.If, ast.Assign, ast.Return)) and has_label(st):
+                wfrag, wowner = st, g
     rfrag = None
-    for st in rd.body:
-        if isinstance(st, ast.If) and has_label(st) and any(isinstance(x, ast.Call) and isinstance(x.func, ast.Name) and x.func.id == "MolecularOrbitals" for x in ast.walk(st)):
-            rfrag = st
+    for g in [rd] + [h for h in prog.callees_closure([rd]) if h.module is rd.module and h is not rd]:
+        for st in g.body:
+            if isinstance(st, ast.If) and has_label(st) and any(isinstance(x, ast.Call) and isinstance(x.func, ast.Name) and x.func.id == "MolecularOrbitals" for x in ast.walk(st)):
+                rfrag = st
     if wfrag is None or rfrag is None:
-        raise AnalysisError("wfx: the spin-label statements of dump_one / load_data_wfx were not found")
+        raise AnalysisError("wfx: the spin-label statements of the writer / the loader were not found")
     wvar = None
     for x in ast.walk(wfrag):
         if isinstance(x, ast.Assign) and len(x.targets) == 1 and isinstance(x.targets[0], ast.Name) and has_label(x.value):
             wvar = x.targets[0].id
+    helper_form = wowner is not do  # a helper that returns the labels: called with the orbitals / the object
     rvar = None
     for x in ast.walk(rfrag):
         if isinstance(x, ast.Assign) and len(x.targets) == 1 and isinstance(x.targets[0], ast.Name) and isinstance(x.value, ast.Call) and isinstance(x.value.func, ast.Name) and x.value.func.id == "MolecularOrbitals":
             rvar = x.targets[0].id
     dparam = do.posparams[1]
+    if helper_form:
+        wvar = "__labels"
     rdata = next((x.value.id for x in ast.walk(rfrag.test) if isinstance(x, ast.Subscript) and isinstance(x.value, ast.Name)), None)
     if wvar is None or rvar is None or rdata is None:
         raise AnalysisError("wfx: spin-label fragments have an unexpected shape")
@@ -139,8 +161,14 @@ def check_wfx_spin_labels(ctx, rid):
         try:
             ev = AccessorEval(prog, mo_cls, limit=4000)
             ev.module = do.module
-            local = {dparam: data}
-            ev._block([wfrag], local)
+            if helper_form:
+                # which argument does the helper take: the orbitals or the object?  (decided from its parameter's use)
+                hp = wowner.posparams[0]
+                takes_mo = any(isinstance(x, ast.Attribute) and isinstance(x.value, ast.Name) and x.value.id == hp and x.attr in ("kind", "occs", "occsa") for x in ast.walk(wowner.node))
+                local = {"__labels": ev.run_free(wowner, [mo if takes_mo else data], {})}
+            else:
+                local = {dparam: data}
+                ev._block([wfrag], local)
             labels = [str(w).strip() for w in local[wvar]]  # the section parser strips each line
             ev2 = AccessorEval(prog, mo_cls, limit=4000)
             ev2.module = rd.module
@@ -157,6 +185,6 @@ def check_wfx_spin_labels(ctx, rid):
             bad = f"{label}: written as {labels}, read back as {got[0]} orbitals with norba = {got[1]}, norbb = {got[2]} (written: {kind}, {na}, {nb})"
             break
     if bad:
-        ctx.violate(rid, f"WFX spin types, {bad}", do, wfrag, construct=f"wfx spin labels: {bad}"[:180])
+        ctx.violate(rid, f"WFX spin types, {bad}", wowner, wfrag, construct=f"wfx spin labels: {bad}"[:180])
     else:
         ctx.ok(rid, f"WFX spin types: for {len(cases)} orbital sets (closed / open shell, fractional occupations never above 1, unrestricted) the labels written are read back as the same kind and counts", f"{do.module.relpath}:{wfrag.lineno}")
